@@ -25,6 +25,13 @@ func main() {
 		probeSyms(dir, os.Args[3:])
 		return
 	}
+	if len(os.Args) > 4 && os.Args[2] == "defat" {
+		var l, c int
+		fmt.Sscanf(os.Args[3], "%d", &l)
+		fmt.Sscanf(os.Args[4], "%d", &c)
+		probeDefAt(dir, l, c)
+		return
+	}
 	if len(os.Args) > 2 && os.Args[2] == "defsall" {
 		probeDefsAll(dir)
 		return
